@@ -5,6 +5,7 @@ WT="/tmp/sw/run_${PID}_$$"
 mkdir -p /tmp/sw
 git -C /repo worktree add -q --detach "$WT" HEAD || exit 3
 git -C "$WT" apply "$PATCH" 2>/dev/null || git -C "$WT" apply -C1 --recount "$PATCH" || { echo "APPLY-FAILED"; git -C /repo worktree remove --force "$WT"; exit 4; }
-cd "$(dirname "$0")/.." && VERIF_REPO_SRC="$WT/src" ./check "$PID" "$@"; RC=$?
+SCRATCH="/var/tmp/vfw-seeded/$PID"; mkdir -p "$SCRATCH"
+cd "$(dirname "$0")/.." && VERIF_REPO_SRC="$WT/src" VERIF_OUT_BASE="$SCRATCH/out" VERIF_EVIDENCE_DIR="$SCRATCH/evidence" ./check "$PID" "$@"; RC=$?
 git -C /repo worktree remove --force "$WT"
 exit $RC
